@@ -1,10 +1,11 @@
 (* Extraction of the executable specification and of the code-level models.  ExtrOcamlBasic only: Z, positive,
    nat, string and ascii stay the extracted inductive types; no Extract Constant / Extract Inductive here. *)
 Require Import ExtrOcamlBasic.
-From C13 Require Import Model_C13 Code_C13.
+From C13 Require Import Model_C13 Code_C13 Deep_Code_C13.
 Extraction Language OCaml.
 Extraction "../ocaml/C13/_build/numtext.ml"
   to_string_spec string_to_number_spec parse_float_spec parse_int_spec
   to_fixed_spec to_exponential_spec to_precision_spec radix_string_spec
   numeric_literal_spec json_number_spec shortest round_nneg ratio
-  parse_int_model string_to_number_model radix_int_model to_exponential_model to_precision_model.
+  parse_int_model string_to_number_model radix_int_model to_exponential_model to_precision_model
+  parse_int_fixed_model string_to_number_fixed_model to_exponential_fixed_model to_precision_fixed_model to_fixed_fixed_model.
